@@ -61,12 +61,24 @@ def build(rnd):
     for i in range(n):
         resp.append({"body": [rnd.choice([0, 1, 7, 500, 9000, 40000, 70000]) for _ in range(rnd.choice([0, 1, 1, 2, 3]))],
                      "trailers": rnd.random() < 0.2, "reset": rnd.random() < 0.12, "status": rnd.choice([200, 200, 404, 204])})
+    client_win = rnd.choice([None, None, 10, 100, 1000, 20000])
+    server_win = rnd.choice([None, None, None, 7, 300, 20000])
+    # bodies stay within ~40 windows so that a case needs a bounded number of WINDOW_UPDATE round trips
+    if client_win:
+        for r in resp:
+            r["body"] = [min(b, client_win * rnd.choice([1, 3, 40])) for b in r["body"]]
+    if server_win:
+        for s in streams:
+            s["body"] = [min(b, server_win * rnd.choice([1, 3, 40])) for b in s["body"]]
     return {
         "streams": streams, "client_acts": merged, "resp": resp,
         "limit": rnd.choice([1, 1, 2, 3, 100]), "limit_late": rnd.randint(0, 6), "lower_to": rnd.choice([None, None, 1, 2]),
         "lower_at": rnd.randint(1, 8),
         # lazy receivers acknowledge data only every k-th step, so senders run into closed flow-control windows
         "server_lazy": rnd.choice([0, 0, 1, 3, 7]), "client_lazy": rnd.choice([0, 0, 1, 4]),
+        # small per-stream windows (connection window stays 65535) with a receiver that reopens stream windows per stream
+        # and the connection window only at half its size: one stream blocked on its window must not hold up the others
+        "client_win": client_win, "server_win": server_win,
         "cuts": [rnd.choice([1, 2, 9, 10, 17, 100, 1000, 70000]) for _ in range(12)],
         "serve_order": [rnd.random() for _ in range(n)], "serve_interleave": rnd.random() < 0.6,
         "pump_every": rnd.choice([1, 1, 2, 4]),
@@ -87,7 +99,9 @@ class World:
         self.flows = {}
         self.top = http_layer.HttpLayer(self.mctx, http_layer.HTTPMode.regular)
         self.d = Driver(self.mctx, self.top, hook_policy=self.policy)
-        self.client = h2peer.H2Peer(True)
+        cw = case.get("client_win")
+        self.client = h2peer.H2Peer(True, settings={h2.settings.SettingCodes.INITIAL_WINDOW_SIZE: cw} if cw else None)
+        self.client.manual_fc = bool(cw)
         self.client.auto_ack = not case.get("client_lazy")
         self.servers = {}  # conn -> peer
         self.d.on_open = self.on_open
@@ -109,7 +123,10 @@ class World:
         st = {}
         if limit is not None:
             st[h2.settings.SettingCodes.MAX_CONCURRENT_STREAMS] = limit
+        if case.get("server_win"):
+            st[h2.settings.SettingCodes.INITIAL_WINDOW_SIZE] = case["server_win"]
         p = h2peer.H2Peer(False, settings=st)
+        p.manual_fc = bool(case.get("server_win"))
         p.auto_ack = not case.get("server_lazy")
         self.servers[conn] = p
         self.d.on_send[conn] = p.receive
@@ -305,9 +322,9 @@ def run_case(case):
             for it in list(pending_data):
                 if it[0] is c and it[1] == s:
                     pending_data.remove(it)
-        if case.get("client_lazy") and step % case["client_lazy"] == 0:
+        if (case.get("client_lazy") and step % case["client_lazy"] == 0) or (c.manual_fc and not case.get("client_lazy")):
             c.ack_all()
-        if case.get("server_lazy") and step % case["server_lazy"] == 0:
+        if (case.get("server_lazy") and step % case["server_lazy"] == 0) or (case.get("server_win") and not case.get("server_lazy")):
             for p in w.servers.values():
                 p.ack_all()
         if step % case["pump_every"] == 0:
@@ -316,8 +333,13 @@ def run_case(case):
             server_step()
             w.pump()
             flush_pending()
-    # drain
-    for _ in range(60):
+    # drain until nothing moves any more
+    sig = None
+    for it in range(600):
+        now = (len(d.trace), len(pending_data), sum(served.values()), sum(len(x[2]) for x in pending_data))
+        if it >= 60 and now == sig:
+            break
+        sig = now
         c.ack_all()
         for p in w.servers.values():
             p.ack_all()
@@ -335,9 +357,26 @@ def run_case(case):
     return w, sid, opened, ended, reset_by_client, sent_body, tag_of
 
 
+def normalise(case):
+    """keep a shrunk case inside the generator's domain (ddmin replaces values by 0 / "" / [])"""
+    n = len(case["streams"])
+    case["limit"] = case["limit"] if case["limit"] in (1, 2, 3, 100) else 1
+    case["cuts"] = [k if k >= 1 else 1 for k in case["cuts"]] or [1000]
+    case["pump_every"] = max(1, case["pump_every"])
+    for k in ("client_win", "server_win"):
+        case[k] = case.get(k) or None
+    for st in case["streams"]:
+        st["method"] = st["method"] if st["method"] in ("GET", "POST") else "GET"
+    case["resp"] = (case["resp"] + [{"body": [], "trailers": False, "reset": False, "status": 200}] * n)[:n]
+    for r in case["resp"]:
+        r["status"] = r["status"] if r["status"] in (200, 404, 204) else 200
+    case["serve_order"] = (case["serve_order"] + [0.0] * n)[:n]
+    return case
+
+
 def check_case(case, ctx):
     import copy
-    case = copy.deepcopy(case)
+    case = normalise(copy.deepcopy(case))
     w, sid, opened, ended, reset_by_client, sent_body, tag_of = run_case(case)
     d = w.d
     n = len(case["streams"])
@@ -348,7 +387,8 @@ def check_case(case, ctx):
     interleaved = len({a[1] for a in case["client_acts"][: max(2, len(case["client_acts"]) // 2)]}) >= 2
     waited = case["limit"] < len(opened)
     if interleaved or waited or reset_by_client:
-        ctx.nt((case["limit"], case.get("server_lazy"), case.get("client_lazy"), tuple((a[0], a[1]) for a in case["client_acts"]), tuple(case["cuts"])),
+        ctx.cls("windows client=%s server=%s" % (case.get("client_win"), case.get("server_win")))
+        ctx.nt((case["limit"], case.get("server_lazy"), case.get("client_lazy"), case.get("client_win"), case.get("server_win"), tuple((a[0], a[1]) for a in case["client_acts"]), tuple(case["cuts"])),
                "limit=%s" % case["limit"])
     if c.error is not None:
         ctx.fail("client-peer-protocol-error", repr(c.error))
